@@ -141,7 +141,7 @@ def report(prop, tier, seed_, t, *, records, trace_module, mc_stats, rule, sampl
             else:
                 rest.append(c)
         if rest:
-            key = (tuple(rest), byrid[rid].get("what", ""))
+            key = (tuple(rest), byrid[rid].get("what", "").split("(")[0].split(" ")[0])
             viol.setdefault(key, (rid, rest))
     for k in known:
         if k["id"] in known_hits:
